@@ -399,14 +399,20 @@ func (x *Exec) rangeNext(st *State, ins *ssa.Next) []*State {
 // ---- concurrency primitives (ghost protocol state only; no interleavings) ----
 
 func (x *Exec) chanRecv(st *State, ins *ssa.UnOp, ch Value) []*State {
+	rh := st.heapTermIn(st.heap, "ghost:chan_recvs", 1, "Int")
 	et := ch.Ty.Underlying().(*types.Chan).Elem()
 	v := st.fresh(et, "recv")
+	// chan_recvs counts the values actually received (a receive that reports !ok, from a closed
+	// and drained channel, delivers nothing)
+	inc := "1"
 	if ins.CommaOk {
 		ok := st.fresh(types.Typ[types.Bool], "recv.ok")
 		st.env[ins] = Value{K: VTuple, Fs: []Value{v, ok}, Ty: ins.Type()}
+		inc = "(ite " + ok.T + " 1 0)"
 	} else {
 		st.env[ins] = v
 	}
+	st.heapSet("ghost:chan_recvs", fmt.Sprintf("(store %s %s (+ (select %s %s) %s))", rh, ch.T, rh, ch.T, inc))
 	return []*State{st}
 }
 
@@ -427,6 +433,8 @@ func (x *Exec) chanClose(st *State, ins ssa.Instruction, ch Value) []*State {
 }
 
 func (x *Exec) goStmt(st *State, fn *ssa.Function, ins *ssa.Go) []*State {
+	gh := st.heapTermIn(st.heap, "ghost:go_started", 1, "Int")
+	st.heapSet("ghost:go_started", fmt.Sprintf("(store %s 0 (+ (select %s 0) 1))", gh, gh))
 	// the spawned function runs concurrently: its effects are not part of this path.
 	// Everything it may write is unknown from here on.
 	x.eng.mu.Lock()
